@@ -86,6 +86,8 @@ def gather_programs(chk, quick, rng, W):
     cases.append({"files": rec, "cls": "recursive"})
     flat = {"foo/v1/flat.j5s": "package foo.v1\n\nobject Outer {\n\tfield inner object:Inner {\n\t\tflatten = true\n\t}\n\tfield name string\n}\n\nobject Inner {\n\tfield a string\n\tfield more object:Outer\n}\n"}
     cases.append({"files": flat, "cls": "recursive-flatten"})
+    # two list methods over one object whose fields carry every kind of list rule (an enum default filter by short name)
+    cases.append({"files": {"foo/v1/tickets.j5s": open(os.path.join(vcheck.VERIF, "programs", "list_filters.j5s")).read()}, "cls": "list-rules"})
     # a list method whose item type contains itself (directly and through a second object), with list rules inside the cycle
     reclist = open(os.path.join(vcheck.VERIF, "programs", "recursive_list.j5s")).read()
     cases.append({"files": {"foo/v1/rec.j5s": reclist}, "cls": "recursive-list"})
